@@ -11,7 +11,9 @@ theorem verdict : (classify Generated.factsC18).Sound (Holds (cfgOf Generated.fa
 #print axioms verdict
 #print axioms summon_mutex
 #print axioms reach_inv
-#print axioms refutes_current
+#print axioms refutes_waiterCount
 #print axioms witness_two_live
+#print axioms refutes_staleCallback
+#print axioms witness_stale_two_live
 
 end Hv.C18
